@@ -68,6 +68,8 @@ def tlaps_prove(ctx, module, deps):
     return int(m.group(1))
 
 
+# findings of the struct-field driver that are about lookups (C16), not about what ends up in the fields (C20)
+C16_FIELDS_FINDINGS = ("Apply asked the service", "with lookups disabled")
 # findings of the backup driver that are about confidentiality at rest (C05), not about the backup schedule (C17)
 C05_BACKUP_FINDINGS = ("the state directory holds", "the key-encryption key was consulted")
 
@@ -1080,6 +1082,11 @@ def c16(ctx):
     cov["trace_events_validated"] += stw["events"]
     # "thereafter polled and cached like any other": lookups of different names overlapping their cache writes (real goroutines, slow cache)
     cov["concurrent_flush_runs"] = cache_order(ctx, 150 if ctx.thorough else 20)
+    # Apply is a caller of lookups: per struct shape, it asks at most once per field naming a secret (a failed lookup is not
+    # repeated), and with lookups disabled it asks nothing and reports the missing secret
+    results, _, _ = ctx.godrive("fields", "^TestFields$", env={"VERIF_MAXFIELDS": 2, "VERIF_RANDOM": 3000 if ctx.thorough else 400}, name="fields-lookups", timeout=3000)
+    rf = ctx.take(results, "fields", only=C16_FIELDS_FINDINGS)
+    cov["apply_cases"] = rf["counters"]["cases"]
     return "model_checking", cov, ["virtual time; a hanging service is a request the driver never releases"]
 
 
@@ -1395,7 +1402,7 @@ def c13(ctx):
 def c20(ctx):
     th = ctx.thorough
     results, wd, _ = ctx.godrive("fields", "^TestFields$", env={"VERIF_MAXFIELDS": 3 if th else 2, "VERIF_RANDOM": 6000 if th else 600}, name="fields", timeout=3000)
-    r = ctx.take(results, "fields")
+    r = ctx.take(results, "fields", drop=C16_FIELDS_FINDINGS)   # how often Apply asks the service is C16's business
     tot = validate_trace_chunks(
         ctx, "FieldsTrace", "FieldsTrace.cfg", os.path.join(wd, "trace.ndjson"), 16 if th else 8,
         keyfn=lambda e: "fields %s prefix=%r forms=%s mode=%s" % (json.dumps(e["shape"]), e["prefix"], json.dumps(e["forms"]), e["mode"]),
